@@ -78,6 +78,8 @@ def lit(v):
 
 
 def pylit(v):
+    if isinstance(v, float) and (v != v or v in (float("inf"), float("-inf"))):
+        return 'float("%s")' % ("nan" if v != v else ("inf" if v > 0 else "-inf"))
     if isinstance(v, (bool, type(None), int, float)):
         return repr(v)
     if isinstance(v, str):
